@@ -453,19 +453,32 @@ def compiledUnpack {V : Type} (splice : V → Option V) (isNone : V → Bool) (d
   | .error e => .error e
   | .ok c => runUnpack isNone d c args
 
+/-- what a SECOND `vp_compile` of the same class sees (form D re-runs it on every `__new__`): the signature of the
+    generated `__init__` instead of the original one -/
+def recompileDef {V : Type} (d : PDef V) (c : Compiled V) : PDef V :=
+  { d with userInit := some false,
+           defaults := c.init.params.filterMap (fun p => match p.2 with
+             | some v => some (p.1, v)
+             | none => none) }
+
 /-! ### dataclass form -/
 
-/-- element types of `list[...]`/`tuple[...]`/`set[...]` and field types -/
+/-- which generic the annotation uses: `list[...]`, `tuple[...]`, `set[...]` -/
+inductive CKind
+  | list | tuple | set
+deriving Repr, DecidableEq, Inhabited
+
+/-- field annotations -/
 inductive Ty
   | bool | int | float | bytes | str
   | tvar (name : String)                  -- `type_from_format(name)`
-  | coll (elem : Ty)                      -- list[T] / tuple[T] / set[T] with T not Serializable
-  | collSer (c : String)                  -- list[Cls]
+  | coll (k : CKind) (first : Ty)         -- list[T] / tuple[T, ...] / set[T]: `get_args(t)[0]`, further arguments ignored
   | ser (c : String)                      -- Cls (Serializable subclass)
+  | lit (c : String)                      -- the annotation is the list literal `[Cls]` (an instance of list)
   | other                                 -- anything else (dict, ...)
 deriving Repr, DecidableEq, Inhabited
 
-/-- the five native element/field types and their formats (first five `if t is ...` branches of `type_map`) -/
+/-- the five native element/field types and their formats (what `type_map` returns on them; table regenerated) -/
 def nativeFmt : Ty → Option String
   | .bool => some "?"
   | .int => some "q"
@@ -474,27 +487,32 @@ def nativeFmt : Ty → Option String
   | .str => some "varlenHutf8"
   | _ => none
 
-/-- `type_map`.  For `list[T]` the code evaluates `issubclass(T, Serializable)` first, which raises TypeError
-    when `T` is not a class (a TypeVar, a nested `list[...]`), then recurses into `type_map(T)`. -/
+/-- `type_map`.  For `list[T]`/`tuple[T, ...]`/`set[T]` the code takes the first type argument, evaluates
+    `issubclass(T, Serializable)` (TypeError when `T` is not a class: a TypeVar, a nested generic, a list literal),
+    returns `[T]` for a payload class and `"arrayH-" + type_map(T)` otherwise; an annotation that is itself a list
+    instance (`[Cls]`) is returned unchanged. -/
 def typeMap : Ty → Except Err Fmt
   | .tvar n => .ok (.str n)
-  | .collSer c => .ok (.lst c)
   | .ser c => .ok (.cls c)
+  | .lit c => .ok (.lst c)
   | .other => .error .notImplemented
-  | .coll e => match nativeFmt e with
-    | some s => .ok (.str ("arrayH-" ++ s))
-    | none => match e with
-      | .other => .error .notImplemented
-      | _ => .error .typeError
+  | .coll _ e => match e with
+    | .ser c => .ok (.lst c)
+    | .other => .error .notImplemented
+    | _ => match nativeFmt e with
+      | some s => .ok (.str ("arrayH-" ++ s))
+      | none => .error .typeError
   | t => match nativeFmt t with
     | some s => .ok (.str s)
     | none => .error .notImplemented
 
-/-- a dataclass payload: fields in declaration order (name, annotation, default) -/
+/-- a dataclass payload: fields in declaration order (name, annotation, default); `conv k` is what `tuple(value)` /
+    `set(value)` do to a decoded list -/
 structure DDef (V : Type) where
   fields : List (String × Ty × Option V)
   fixPack : List (String × (V → V)) := []
   fixUnpack : List (String × (V → V)) := []
+  conv : CKind → V → V := fun _ v => v
 
 def mapTypes : List Ty → Except Err (List Fmt)
   | [] => .ok []
@@ -509,13 +527,24 @@ def fieldDefaults {V : Type} : List (String × Ty × Option V) → KW V
   | (n, _, some v) :: rest => (n, v) :: fieldDefaults rest
   | (_, _, none) :: rest => fieldDefaults rest
 
+/-- `convert_to_payload` (as repaired): a field annotated `tuple[...]`/`set[...]` gets a `fix_unpack_<field>` hook that
+    restores the container (the array / payload-list unpackers return a list), unless the class defines one -/
+def derivedUnpack {V : Type} (conv : CKind → V → V) (user : List (String × (V → V))) :
+    List (String × Ty × Option V) → List (String × (V → V))
+  | [] => []
+  | (n, .coll k _, _) :: rest =>
+    if k = .list || hasKey user n then derivedUnpack conv user rest
+    else (n, conv k) :: derivedUnpack conv user rest
+  | _ :: rest => derivedUnpack conv user rest
+
 /-- `convert_to_payload`: the definition the dataclass denotes (the dataclass-generated `__init__` plays the
     role of the user `__init__` without `**kwargs`) -/
 def DDef.toPDef {V : Type} (dd : DDef V) : Except Err (PDef V) :=
   match mapTypes (dd.fields.map (·.2.1)) with
   | .error e => .error e
   | .ok fmts => .ok { fmts := fmts, names := dd.fields.map (·.1), userInit := some false,
-                      defaults := fieldDefaults dd.fields, fixPack := dd.fixPack, fixUnpack := dd.fixUnpack }
+                      defaults := fieldDefaults dd.fields, fixPack := dd.fixPack,
+                      fixUnpack := dd.fixUnpack ++ derivedUnpack dd.conv dd.fixUnpack dd.fields }
 
 def dataclassInit {V : Type} (splice : V → Option V) (dd : DDef V) (args : List V) (kw : KW V) :
     Except Err (Attrs V) :=
@@ -618,8 +647,16 @@ def nearest (conv : List Nat) : Nat → Option Nat
   | 0 => if conv.contains 0 then some 0 else none
   | k + 1 => if conv.contains (k + 1) then some (k + 1) else nearest conv k
 
-/-- state after instantiating classes in the given order (`__new__` converts unconditionally) -/
+/-- state after instantiating classes in the given order when `__new__` converts unconditionally -/
 def runInst (evs : List Nat) : List Nat := evs.foldl (fun conv k => k :: conv) []
+
+/-- the condition under which `DataClassPayload.__new__` / `DataClassPayloadWID.__new__` call `convert_to_payload`,
+    as found in the SOURCE by the translator (Gen.newGuard) -/
+inductive NewGuard
+  | always                 -- `convert_to_payload(cls)` is a plain statement of `__new__`
+  | ifNoFormatList         -- `if not cls.format_list: convert_to_payload(cls)`
+  | unknown                -- anything else
+deriving Repr, DecidableEq, Inhabited
 
 /-- `cls.format_list`, `cls.names` as seen on class `k` in state `conv` -/
 def DChain.classData {V : Type} (c : DChain V) (conv : List Nat) (k : Nat) : Except Err (List Fmt × List String) :=
@@ -629,12 +666,31 @@ def DChain.classData {V : Type} (c : DChain V) (conv : List Nat) (k : Nat) : Exc
     | .ok d => .ok (d.fmts, d.names)
     | .error e => .error e
 
-/-- `Class_k(*args, **kw)` in state `conv`: `__new__` converts class k, then the `__init__` found on it runs -/
-def DChain.hierInit {V : Type} (splice : V → Option V) (c : DChain V) (conv : List Nat) (k : Nat)
+/-- `__new__` of class `k` in state `conv`, under the guard of the source -/
+def DChain.newStep {V : Type} (g : NewGuard) (c : DChain V) (conv : List Nat) (k : Nat) : List Nat :=
+  match g with
+  | .always => k :: conv
+  | .ifNoFormatList => match c.classData conv k with
+    | .ok ([], _) => k :: conv
+    | _ => conv
+  | .unknown => conv
+
+/-- state after instantiating classes in the given order -/
+def DChain.run {V : Type} (g : NewGuard) (c : DChain V) (evs : List Nat) : List Nat :=
+  evs.foldl (c.newStep g) []
+
+/-- `Class_k(*args, **kw)` in state `conv`: `__new__` (under guard `g`), then the `__init__` found on the class runs -/
+def DChain.hierInit {V : Type} (g : NewGuard) (splice : V → Option V) (c : DChain V) (conv : List Nat) (k : Nat)
     (args : List V) (kw : KW V) : Except Err (Attrs V) :=
-  match nearest (k :: conv) k with
+  match nearest (c.newStep g conv k) k with
   | none => .error .typeError
   | some j => dataclassInit splice (c.ddef j) args kw
+
+/-- a decode attempt on a class with no converted ancestor calls `cls()` and thereby converts it -/
+def DChain.decodeStep {V : Type} (g : NewGuard) (c : DChain V) (conv : List Nat) (k : Nat) : List Nat :=
+  match nearest conv k with
+  | none => c.newStep g conv k
+  | some _ => conv
 
 /-- `unpack_serializable(Class_k, data)` in state `conv` (no instantiation of class k implied) -/
 def DChain.hierDecode {V : Type} (unpackAll : List Fmt → Bytes → Option (List V)) (splice : V → Option V)
